@@ -183,3 +183,191 @@ def run_pretty_case(case):
             P.append(f'railroads() of the {which} model raised {type(e).__name__}: {e}'[:300])
     out['behaviour'] = ba
     return out
+
+
+def run_asjson_graphs(case):
+    """Build each abstract object graph of spec/AsJson.tla out of real dicts, lists and Node objects and push it through asjson."""
+    import json
+    import re
+    import signal
+    import sys
+    from tatsu.objectmodel import Node
+    from tatsu.util.asjson import asjson
+    sys.setrecursionlimit(400)
+    refre = re.compile(r'^\w+@0x[0-9A-F]+$')
+
+    class GNode(Node):
+        pass
+
+    class TO(BaseException):
+        pass
+
+    def h(*a):
+        raise TO()
+    signal.signal(signal.SIGALRM, h)
+    bad = []
+    for g in case['graphs']:
+        kind, kids = g['kind'], g['kids']
+        n = len(kind)
+        objs = []
+        for i in range(n):
+            objs.append({} if kind[i] == 'dict' else [] if kind[i] == 'list' else GNode())
+        for i in range(n):
+            ks = kids[i] if isinstance(kids[i], list) else []
+            for j, c in enumerate(ks):
+                child = objs[c - 1]
+                if kind[i] == 'dict':
+                    objs[i][f'k{j}'] = child
+                elif kind[i] == 'list':
+                    objs[i].append(child)
+                else:
+                    setattr(objs[i], f'c{j}', child)
+            if kind[i] == 'dict':
+                objs[i]['leaf'] = 'text'
+        signal.alarm(5)
+        try:
+            out = asjson(objs[0])
+            text = json.dumps(out)
+        except TO:
+            bad.append({'graph': g, 'observed': 'did not terminate within 5 s'})
+            continue
+        except RecursionError:
+            bad.append({'graph': g, 'observed': 'RecursionError'})
+            continue
+        except Exception as e:  # noqa: BLE001
+            bad.append({'graph': g, 'observed': f'{type(e).__name__}: {e}'[:200]})
+            continue
+        finally:
+            signal.alarm(0)
+
+        def cmp(spec, real, path='$'):
+            if 'ref' in spec:
+                return None if isinstance(real, str) and refre.match(real) else f'{path}: expected a reference string for node {spec["ref"]}, got {str(real)[:60]!r}'
+            ks = spec['kids'] if isinstance(spec['kids'], list) else []
+            if spec['kind'] == 'list':
+                if not isinstance(real, list) or len(real) != len(ks):
+                    return f'{path}: expected a list of {len(ks)}, got {str(real)[:60]!r}'
+                items = real
+            elif spec['kind'] == 'dict':
+                if not isinstance(real, dict) or real.get('leaf') != 'text':
+                    return f'{path}: expected a dict, got {str(real)[:60]!r}'
+                items = [real.get(f'k{j}') for j in range(len(ks))]
+            else:
+                if not isinstance(real, dict) or real.get('__class__') != 'GNode':
+                    return f'{path}: expected an object dict with __class__, got {str(real)[:60]!r}'
+                items = [real.get(f'c{j}') for j in range(len(ks))]
+            for j, (s, r) in enumerate(zip(ks, items)):
+                why = cmp(s, r, f'{path}/{j}')
+                if why:
+                    return why
+            return None
+        why = cmp(g['out'], out)
+        if why:
+            bad.append({'graph': {'kind': kind, 'kids': kids}, 'observed': why})
+    return bad[:10]
+
+
+def run_serial_case(case):
+    """C14 for one grammar text: JSON, pickle and Python model source round trips -> same rules/directives/keywords, same behaviour."""
+    import json
+    import pickle
+    import tatsu
+    from tatsu.peg import Grammar
+    from .impl import clear_caches
+    clear_caches()
+    out = {'problems': []}
+    P = out['problems']
+    try:
+        m = tatsu.compile(case['ebnf'], name=case.get('name'))
+    except Exception as e:  # noqa: BLE001
+        out['skip'] = f'source does not compile: {type(e).__name__}: {e}'[:200]
+        return out
+    ref_model = simplify(from_model(m))
+    try:
+        ref_opt = simplify(from_model(m.optimized()))       # the source generators work on the optimized model
+    except Exception:  # noqa: BLE001
+        ref_opt = ref_model
+    ref_beh = behaviour(m, case['texts'])
+    out['behaviour'] = ref_beh
+
+    def check(route, build):
+        try:
+            m2 = build()
+        except Exception as e:  # noqa: BLE001
+            P.append(f'{route}: reload raised {type(e).__name__}: {str(e)[:160]}')
+            return
+        try:
+            got = simplify(from_model(m2))
+            want = ref_model
+            if route == 'python-source':
+                want = dict(ref_opt)
+                got['name'] = want.get('name')         # the generated module is given its own parser name
+            d = diff_path(want, got)
+            if d:
+                P.append(f'{route}: reloaded model differs: {d}')
+            b2 = behaviour(m2, case['texts'])
+            for t, x, y in zip(case['texts'], ref_beh, b2):
+                if x != y:
+                    P.append(f'{route}: behaviour differs on {t!r}: original {x} reloaded {y}')
+                    break
+        except Exception as e:  # noqa: BLE001
+            P.append(f'{route}: comparing the reloaded model raised {type(e).__name__}: {str(e)[:160]}')
+
+    def via_json():
+        js = m.asjson()
+        text = json.dumps(js)
+        return Grammar.load(json.loads(text))
+
+    def via_jsons():
+        return Grammar.loads(m.asjsons()) if hasattr(Grammar, 'loads') else Grammar.load(json.loads(m.asjsons()))
+
+    def via_pickle():
+        return pickle.loads(pickle.dumps(m))
+
+    def via_source():
+        from tatsu.api import to_parsermodel_sourcecode
+        src = to_parsermodel_sourcecode(case['ebnf'], name=case.get('name') or 'Ser')
+        ns = {}
+        exec(compile(src, '<modelsource>', 'exec'), ns)
+        gm = ns.get('GRAMMAR_MODEL')
+        if gm is None:
+            raise RuntimeError('generated module has no GRAMMAR_MODEL')
+        return gm
+    def via_source_parser():
+        from tatsu.api import to_parsermodel_sourcecode
+        src = to_parsermodel_sourcecode(case['ebnf'], name='Ser')
+        ns = {}
+        exec(compile(src, '<modelsource>', 'exec'), ns)
+        parser = ns['SerParser']()
+
+        class AsModel:          # behaviour() calls .parse(text, start=...) and reads .rules
+            rules = ns['GRAMMAR_MODEL'].rules
+
+            def parse(self, text, **kw):
+                return parser.parse(text, asmodel=False, **kw)
+        return AsModel()
+
+    try:
+        b3 = behaviour(via_source_parser(), case['texts'])
+        for t, x, y in zip(case['texts'], ref_beh, b3):
+            if x != y:
+                P.append(f'python-source parser class: behaviour differs on {t!r}: original {x} generated parser {y}')
+                break
+    except Exception as e:  # noqa: BLE001
+        P.append(f'python-source parser class: {type(e).__name__}: {str(e)[:160]}')
+    check('json', via_json)
+    check('jsons', via_jsons)
+    check('pickle', via_pickle)
+    check('python-source', via_source)
+    # converting parse results to JSON
+    try:
+        from tatsu.util.asjson import asjson
+        for t in case['texts']:
+            try:
+                v = m.parse(t, **({'start': 'start'} if any(r.name == 'start' for r in m.rules) else {}))
+            except Exception:  # noqa: BLE001
+                continue
+            json.dumps(asjson(v))
+    except Exception as e:  # noqa: BLE001
+        P.append(f'asjson of a parse result: {type(e).__name__}: {str(e)[:160]}')
+    return out
